@@ -860,16 +860,32 @@ func (g *gen) writeBuiltinNumType(b *buffer, recv *a.Expr, method t.ID, args []*
 
 	case t.IDHighBits:
 		// "recv.high_bits(n:etc)" in C is "((recv) >> (8*sizeof(recv) - (n)))".
+		//
+		// Unless n is known to be positive, it is instead "(((recv) >> 1) >>
+		// (8*sizeof(recv) - 1 - (n)))", as n can be zero and shifting a C
+		// value by its full width is undefined behavior.
+		sz, err := g.sizeof(recv.MType())
+		if err != nil {
+			return err
+		}
+		if cv := args[0].AsArg().Value().ConstValue(); cv == nil || cv.Sign() <= 0 {
+			b.writes("((((")
+			if err := g.writeExpr(b, recv, false, depth); err != nil {
+				return err
+			}
+			b.printf(") >> 1u) >> (%du - ", 8*sz-1)
+			if err := g.writeExpr(b, args[0].AsArg().Value(), false, depth); err != nil {
+				return err
+			}
+			b.writes(")))")
+			return nil
+		}
 		b.writes("((")
 		if err := g.writeExpr(b, recv, false, depth); err != nil {
 			return err
 		}
 		b.writes(") >> (")
-		if sz, err := g.sizeof(recv.MType()); err != nil {
-			return err
-		} else {
-			b.printf("%du", 8*sz)
-		}
+		b.printf("%du", 8*sz)
 		b.writes(" - ")
 		if err := g.writeExpr(b, args[0].AsArg().Value(), false, depth); err != nil {
 			return err
